@@ -132,6 +132,7 @@ def _worker(mod, cases, outpath, budget_s, tier):
         ctx.harness_errors.append("worker: " + traceback.format_exc()[-1500:])
     out = ctx.dump()
     out["reached"] = sorted(reach.stop()) if reach else []
+    out["lines"] = {k: sorted(v) for k, v in reach.lines.items()} if reach else {}
     with open(outpath, "w") as f:
         json.dump(out, f, default=str)
     os._exit(0)
@@ -164,7 +165,7 @@ def run_parallel(mod, cases, tier, workers, budget_s):
     agg = {
         "counters": collections.Counter(), "hists": collections.defaultdict(collections.Counter),
         "violations": [], "viol_by_mech": collections.Counter(), "sigs": set(), "samples": [],
-        "harness_errors": [], "reached": set(),
+        "harness_errors": [], "reached": set(), "lines": {},
     }
     deadline = time.time() + budget_s + 30
     remaining = dict(pids)
@@ -206,6 +207,8 @@ def run_parallel(mod, cases, tier, workers, budget_s):
         agg["samples"].extend(d["samples"])
         agg["harness_errors"].extend(d["harness_errors"])
         agg["reached"].update(d["reached"])
+        for k, v in d.get("lines", {}).items():
+            agg["lines"].setdefault(k, set()).update(v)
     for f in os.listdir(workdir):
         os.unlink(os.path.join(workdir, f))
     os.rmdir(workdir)
@@ -226,6 +229,7 @@ def run_inline(mod, cases, tier):
     d["viol_by_mech"] = collections.Counter(d["viol_by_mech"])
     d["sigs"] = set(d["sigs"])
     d["reached"] = set()
+    d["lines"] = {}
     return d, []
 
 
@@ -262,6 +266,21 @@ def write_replay(prop, v):
     return os.path.relpath(path, VERIF) if path.startswith(VERIF + os.sep) else path
 
 
+def anchored_files(prop):
+    """the files a property is anchored in (properties.jsonl), plus the modules every property leans on"""
+    files = []
+    with open(os.path.join(VERIF, "properties.jsonl")) as f:
+        for line in f:
+            p = json.loads(line)
+            if p["id"] == prop:
+                files = list(p.get("anchors", {}).get("files", []))
+    if os.environ.get("VERIF_REACH_ALL"):   # audit mode (tools/reachreport.py): every library source file
+        import glob
+        files = sorted(os.path.relpath(x, boot.REPO) for pat in ("moclo/moclo/**/*.py", "moclo-*/moclo/**/*.py")
+                       for x in glob.glob(os.path.join(boot.REPO, pat), recursive=True))
+    return files
+
+
 def finish(mod, tier, seed, agg, problems, t0, ncases, exhaustive=False, extra=None):
     prop = mod.PROP
     known, new = classify(prop, agg["violations"], agg["viol_by_mech"])
@@ -293,6 +312,12 @@ def finish(mod, tier, seed, agg, problems, t0, ncases, exhaustive=False, extra=N
         "known_findings_seen": sorted({k["mechanism"] for _, k in known}),
         "inconclusive_reasons": inconclusive,
     }
+    if agg.get("lines"):
+        try:
+            from . import reach as _reach
+            coverage["anchored_statements"] = _reach.unreached_report(boot.REPO, anchored_files(prop), agg["lines"])
+        except Exception as e:  # evidence detail only, never a verdict
+            coverage["anchored_statements"] = {"error": repr(e)}
     if extra:
         coverage.update(extra)
     ev = {
